@@ -273,21 +273,23 @@ impl Rollback {
 
         // NOTE: for now, if there is a pending truncate, we ignore everything else.
         if let Some(pending_truncate) = pending_truncate {
-            // If every live record has been rolled back, the new end lies before the start of the
-            // live range (whose older records may already have been pruned). The log is then
-            // empty: publish the empty range and prune everything, rather than a range naming a
-            // record which is no longer live.
-            let new_end_live = if pending_truncate < seglog.live_range().0 .0 {
-                0
-            } else {
-                pending_truncate
+            // After a truncation the live range is exactly what is left in memory. Deriving it from
+            // the range known to the seglog is not enough: that range may still start at a delta
+            // which has already been discarded (its start lags one sync behind, and `read` trims
+            // the log it loads), and when every delta has been rolled back the new end lies
+            // before the start. Publishing such a range would bring discarded deltas back the
+            // next time the database is opened.
+            let (rollback_start_live, rollback_end_live) = match in_memory.log.front() {
+                Some((first, _)) => (first.0, pending_truncate),
+                None => (0, 0),
             };
-            let rollback_start_live = std::cmp::min(seglog.live_range().0 .0, new_end_live);
+            let prune_to_new_start_live =
+                (rollback_start_live > seglog.live_range().0 .0).then_some(rollback_start_live);
             return WriteoutData {
                 rollback_start_live,
-                rollback_end_live: new_end_live,
-                prune_to_new_start_live: None,
-                prune_to_new_end_live: Some(new_end_live),
+                rollback_end_live,
+                prune_to_new_start_live,
+                prune_to_new_end_live: Some(rollback_end_live),
             };
         }
 
